@@ -1409,6 +1409,17 @@ def merge(left: DataFrame,
     left_fields_to_map = left.keys() if left_fields is None else left_fields
     right_fields_to_map = right.keys() if right_fields is None else right_fields
 
+    # every destination field needs a name of its own, however the merge is carried out: the mapped
+    # fields under their (suffixed) names, next to the fields that merge itself adds to the destination
+    dest_names = ['_left_map', '_right_map', 'valid' + left_suffix, 'valid' + right_suffix]
+    dest_names += [f + left_suffix if f in right_fields_to_map else f for f in left_fields_to_map]
+    dest_names += [f + right_suffix if f in left_fields_to_map else f for f in right_fields_to_map]
+    if len(set(dest_names)) != len(dest_names):
+        clashes = sorted(n for n in set(dest_names) if dest_names.count(n) > 1)
+        raise ValueError("merge would write more than one destination field named {}; '_left_map', "
+                         "'_right_map', 'valid{}' and 'valid{}' are reserved for fields that merge "
+                         "adds itself".format(clashes, left_suffix, right_suffix))
+
     # TODO: check for ordering for multi-key-fields (is_ordered doesn't support it yet)
     if hint_left_keys_ordered is None:
         left_keys_ordered = False
